@@ -52,6 +52,8 @@ def run(ctx: Ctx):
     ctx.guarded(run_family, ctx, "AXIS-FAMILY")
     from .lineq import broadcast_arity
 
+    res.rule("CONJ-AGREE", "sibling agreement on conjugation: a tenalg routine implemented by both backends (core and einsum) conjugates an operand in one implementation if and only if it does in the other (reading through the routines of the same backend it delegates to): for complex operands `transpose=True` means the conjugate transpose and MTTKRP contracts with the conjugated factors, in every backend", floor=8)
+    ctx.guarded(conj_agree, ctx)
     res.rule("BROADCAST-ARITY", "core outer / batched_outer: at every broadcast product reshape(a, s1) * reshape(b, s2) the two target shapes have the same number of entries in every loop iteration -- decided with an affine-relation (Karr) analysis over integer locals, tuple lengths and array ranks (first iteration peeled, loop iterated to a fixpoint)", floor=2)
     ctx.guarded(broadcast_arity, ctx, "BROADCAST-ARITY")
     res.rule("INDEX-WIDTH", "sample_khatri_rao: the mixed-radix accumulation of the sampled row index (acc = acc * size + index) starts from an integer array of an explicitly wide type (dtype=int / int64), not from a Python scalar or from the caller's index arrays: otherwise the row index inherits a narrow integer type and wraps around for large products of row counts", floor=1)
@@ -449,3 +451,47 @@ def index_width(ctx: Ctx):
             ctx.finding("INDEX-WIDTH", f, st, f"sample_khatri_rao accumulates the sampled row index in `{acc}`, which starts from `{why}`: the index then takes the integer type of the caller's index arrays (a Python scalar is weakly typed) and wraps around once the product of the row counts exceeds that type's range; allocate it with an explicit wide integer dtype", construct=f"sample_khatri_rao: {acc} starts from {why}")
     if n == 0:
         raise AnalysisError("INDEX-WIDTH: no mixed-radix accumulation (acc = acc * size + index) found in sample_khatri_rao; cannot decide")
+
+
+# ---------------------------------------------------------------------------------
+# CONJ-AGREE: the two backends conjugate the same routines
+# ---------------------------------------------------------------------------------
+def conj_agree(ctx: Ctx):
+    import ast
+
+    from ..common import call_name, src
+    from ..model import AnalysisError, own_scope_nodes
+
+    repo, res = ctx.repo, ctx.res
+    impls = repo.tenalg_impls
+    core, ein = impls.get("core", {}), impls.get("einsum", {})
+    common = sorted(set(core) & set(ein))
+    if not common:
+        raise AnalysisError("CONJ-AGREE: no routine is implemented by both tenalg backends; cannot decide")
+
+    def conjugates(f, seen=None, depth=0):
+        """does f (or a same-package routine it calls, two levels deep) apply conj?"""
+        seen = seen or set()
+        if f.qname in seen or depth > 2:
+            return []
+        seen.add(f.qname)
+        out = [c for c in own_scope_nodes(f.node) if isinstance(c, ast.Call) and (call_name(c) or "") in ("conj", "conjugate")]
+        pkg = f.module.name.rsplit(".", 1)[0]
+        for c in own_scope_nodes(f.node):
+            if isinstance(c, ast.Call):
+                ct = repo.resolve_call(f, f.module, c)
+                if ct.kind == "repo":
+                    for g in ct.funcs[:2]:
+                        if g.module.name.startswith(pkg) and g is not f:
+                            out += conjugates(g, seen, depth + 1)
+        return out
+
+    n = 0
+    for name in common:
+        a, b = conjugates(core[name]), conjugates(ein[name])
+        n += 1
+        ok = bool(a) == bool(b)
+        res.instance("CONJ-AGREE", f"{name}: core / einsum", sample={"core_conjugates": bool(a), "einsum_conjugates": bool(b), "ok": ok})
+        if not ok:
+            have, lack = (core[name], ein[name]) if a else (ein[name], core[name])
+            ctx.finding("CONJ-AGREE", lack, lack.node, f"`{name}`: the {have.module.name.split('.')[-2].replace('_tenalg', '')} backend conjugates an operand (`{src((a or b)[0])[:60]}`) but the {lack.module.name.split('.')[-2].replace('_tenalg', '')} backend's implementation applies no conjugation at all: for complex operands the two backends compute different contractions (conjugate transpose versus plain transpose), so the result depends on which tenalg backend is selected", construct=f"{name}: conjugation in one backend only")
